@@ -583,6 +583,13 @@ func (w *world) submit(kind, arg string) error {
 	default:
 		return fmt.Errorf("unknown kind %s", kind)
 	}
+	if w.dead {
+		// the connection is gone: nothing reaches the server, the call has to end by itself
+		w.tags = append(w.tags, "")
+		w.res = append(w.res, r)
+		w.kinds = append(w.kinds, kind)
+		return nil
+	}
 	tag, text, err := w.readCmd()
 	if err == nil && kind == "AUTHENTICATE" && text != "AUTHENTICATE PLAIN" {
 		err = fmt.Errorf("AUTHENTICATE with an initial response although SASL-IR is not advertised: %q", text)
@@ -649,7 +656,7 @@ func (w *world) barrier() error {
 
 func (w *world) step(ev *event) error {
 	switch ev.Act {
-	case "Submit":
+	case "Submit", "SubmitDead":
 		return w.submit(ev.S1, ev.S2)
 	case "Exists":
 		w.write(fmt.Sprintf("* %d EXISTS", ev.N1))
